@@ -208,7 +208,13 @@ def drv_boundary(ctx, k, rng):
         gd = float(res["lb_d"][i])
         ctx.seen("limit.delta")
         if not math.isnan(gd):
-            chk("limit.delta", "lookback", gd, -cc, 2.0 + cc, "a lookback delta in [0, 2]")
+            if not (-cc <= gd <= 2.0 + cc) and not degenerate:
+                # autograd of the closed form: terms of size npdf/(sigma sqrt t) ~ 1e15 cancel, leaving rounding garbage
+                ctx.violation("limit.delta", "lookback_delta.cancellation_at_tiny_maturity", f"lookback delta = {gd!r} at t={float(T_[i])!r}, sigma={float(V_[i])!r}, s={sv!r}, "
+                              f"m={mv!r}, K={K} (sigma sqrt t = {wv:.3g}): outside [0, 2]", sig=("lookback", regime, side, str(dtype), via), log_moneyness=sv,
+                              time_to_maturity=float(T_[i]), volatility=float(V_[i]), max_log_moneyness=mv, strike=K, observed=gd)
+            else:
+                chk("limit.delta", "lookback", gd, -cc, 2.0 + cc, "a lookback delta in [0, 2]")
     if k < 4:
         ctx.sample({"driver": "boundary", "dtype": str(dtype), "via": via, "call": call, "K": K, "s": S_, "t": T_, "sigma": V_, "m": M_,
                     "european_price": res["eu_p"], "lookback_price": res["lb_p"], "american_binary_delta": res["ab_d"]})
@@ -304,6 +310,12 @@ def drv_witness(ctx, k, rng):
     if k == 0:
         s = torch.tensor([-0.1, 0.0, 0.1], dtype=F64)
         F.bs_lookback_delta(s, s.clamp(min=0.05), torch.zeros(3, dtype=F64), torch.full((3,), 0.2, dtype=F64), strike=1.0)
+    elif k == 2:
+        s = torch.tensor([0.1], dtype=F64)
+        gd = float(F.bs_lookback_delta(s, s.clone(), torch.tensor([1e-30], dtype=F64), torch.tensor([0.15310090641812815], dtype=F64), strike=0.5))
+        ctx.seen("limit.delta")
+        ctx.check("limit.delta", -1e-12 <= gd <= 2.0 + 1e-12, "lookback_delta.cancellation_at_tiny_maturity",
+                  f"lookback delta = {gd!r} at t=1e-30, sigma=0.153, spot at its running maximum above the strike: outside [0, 2]", sig=("witness",), observed=gd)
     else:
         # a Heston path that sits at zero variance for one step (the QE scheme returns exactly 0 with positive probability)
         stock = HestonStock(cost=1e-3, dtype=F64)
@@ -323,7 +335,7 @@ def drv_witness(ctx, k, rng):
 
 
 DRIVERS = [
-    ("witness", 2, 2, drv_witness),
+    ("witness", 3, 3, drv_witness),
     ("boundary", 300, 20000, drv_boundary),
     ("reject", 40, 1500, drv_reject),
     ("hedger", 80, 2500, drv_hedger),
